@@ -315,3 +315,87 @@ HARNESSES.append(
       require=lambda tier: ["puts_overlap", "eviction"], classify=overlap_classify,
       functions=["CachedStore.put (write-back)/_cache_put/flush/get", "KVStore.put_sync/get"],
       bounds=lambda tier: {"puts": "put(k1) at 0, put(k2) at a symbolic ns in [0, 1 ms] (cache write latency 0.5 ms)", "capacity": [1, 2], "policies": ["lru", "fifo", "lfu"]}))
+
+
+def flush_overlap(sym, tier):
+    """Write-back CachedStore: put(k1); a flush() is started at a symbolic instant and, while it is
+    writing k1 to the backing store (2 ms), a put of k2 (or a second put of k1) starts at another
+    symbolic instant.  After everything completed and one more flush, the backing store holds the
+    latest value of every key, nothing is left dirty, and reads see the latest values - also after
+    capacity pressure evicted the key written during the flush."""
+    r = Result()
+    cap = 1 + sym.choice("capacity_minus_1", 2)
+    same_key = sym.bool("second_put_same_key")
+    store = KVStore("kv", read_latency=0.001, write_latency=0.002)
+    cs = CachedStore("cache", backing_store=store, cache_capacity=cap, eviction_policy=LRUEviction(), write_through=False, cache_read_latency=0.0005)
+    flush_at = sym.int("flush_start_us", 400, 1200) * 1000
+    put_at = sym.int("second_put_start_us", 0, 4000) * 1000
+    v1, v2 = sym.int("v1", 1, 9), sym.int("v2", 11, 19)
+    third_at = sym.int("third_put_start_us", 0, 5000) * 1000 if sym.bool("pressure_during_flush") else 20_000_000
+    k2 = "k1" if same_key else "k2"
+    res = {}
+
+    def w1(self):
+        yield from cs.put("k1", v1)
+        res["w1_done"] = self.now.nanoseconds
+
+    def fl(self):
+        b = self.now.nanoseconds
+        n = yield from cs.flush()
+        res["flush"] = (b, self.now.nanoseconds, n)
+
+    def w2(self):
+        b = self.now.nanoseconds
+        yield from cs.put(k2, v2)
+        res["w2"] = (b, self.now.nanoseconds)
+
+    def w3(self):
+        yield from cs.put("k3", 33)          # capacity pressure after the flush
+
+    def checker(self):
+        yield from cs.flush()
+        got1 = yield from cs.get("k1")
+        got2 = yield from cs.get(k2)
+        res["reads"] = (got1, got2)
+
+    cl = [_Client("w1", w1), _Client("fl", fl), _Client("w2", w2), _Client("w3", w3), _Client("chk", checker)]
+    sim = Simulation(entities=[store, cs] + cl)
+    mon = Monitor(sim, cap=60)
+    sim.schedule([mk_event(0, "go", cl[0]), mk_event(flush_at, "go", cl[1]), mk_event(put_at, "go", cl[2]),
+                  mk_event(third_at, "go", cl[3]), mk_event(50_000_000, "go", cl[4])])
+    try:
+        sim.run()
+    except SpinDetected:
+        pass
+    mon.judge(r, "flush_overlap")
+    want1 = v1
+    if same_key:
+        # the later-completing put wins; both orders are possible only if they overlap, otherwise the second
+        want1 = v2 if put_at >= res.get("w1_done", 0) else None
+    want2 = v2 if not same_key else want1
+    reads = res.get("reads")
+    ok1 = (reads is not None) and (reads[0] == want1 if want1 is not None else reads[0] in (v1, v2))
+    ok2 = (reads is not None) and (reads[1] == want2 if want2 is not None else reads[1] in (v1, v2))
+    if not (ok1 and ok2):
+        r.bad("read_after_completed_write_returns_it", {"reads": reads, "v1": v1, "v2": v2, "same_key": same_key, "capacity": cap, "flush": res.get("flush"), "second_put": res.get("w2")})
+    s1, s2 = store.get_sync("k1"), store.get_sync(k2)
+    if reads is not None and (s1 != reads[0] or s2 != reads[1]):
+        r.bad("write_back_data_reaches_the_backing_store", {"store": [s1, s2], "reads": reads, "same_key": same_key, "capacity": cap, "flush": res.get("flush"),
+                                                           "second_put": res.get("w2"), "dirty": cs.get_dirty_keys()})
+    if not set(cs.get_dirty_keys()) <= set(cs.get_cached_keys()):
+        r.bad("dirty_keys_are_cached", cs.get_dirty_keys(), cs.get_cached_keys())
+    if res.get("flush") and res.get("w2") and res["flush"][0] < res["w2"][0] < res["flush"][1]:
+        r.wit.add("put_started_during_flush")
+    if res.get("flush") and res["flush"][2] >= 1:
+        r.wit.add("flush_wrote_a_key")
+    r.obs = {"reads": reads, "flush": res.get("flush"), "w2": res.get("w2")}
+    return r
+
+
+HARNESSES.append(
+    H(name="c16_flush_overlap", fn=flush_overlap, shape="S", budget=lambda tier: 900.0,
+      cubes=lambda tier: [{"capacity_minus_1": c, "second_put_same_key": k} for c in range(2) for k in range(2)],
+      require=lambda tier: ["put_started_during_flush", "flush_wrote_a_key"], classify=overlap_classify,
+      functions=["CachedStore.flush/put (write-back)/_cache_put/get", "KVStore.put/get"],
+      bounds=lambda tier: {"flush start": "symbolic whole microsecond in [0.4, 1.2] ms", "second put start": "symbolic whole microsecond in [0, 4] ms, same or different key",
+                           "capacity": [1, 2], "then": "put(k3) (capacity pressure) at 20 ms or at a symbolic whole microsecond in [0, 5] ms, flush + reads at 50 ms"}))
